@@ -124,6 +124,21 @@ pub struct DB {
 }
 show_struct!(DB, field1, field2, items, last, req);
 
+/// token ids below the largest reserved lexeme id (0x0317) that are not lexemes themselves:
+/// real game fields have such ids (0x00e1 "type", 0x001b "name")
+#[derive(JominiDeserialize, Debug)]
+pub struct DG {
+    #[jomini(token = 0x00e1)]
+    kind: String,
+    #[jomini(token = 0x001b, default)]
+    name: String,
+    #[jomini(token = 0x0165, duplicated)]
+    nums: Vec<i32>,
+    #[jomini(token = 0x02ff)]
+    flag: bool,
+}
+show_struct!(DG, kind, name, nums, flag);
+
 #[derive(JominiDeserialize, Debug)]
 pub struct DSub {
     id: u32,
@@ -191,6 +206,7 @@ pub fn dispatch(kind: &str, a: &[&str]) -> Option<String> {
             match *st {
                 "DA" => fin(run_text::<DA>(path, e, &data, &mut s)),
                 "DB" => fin(run_text::<DB>(path, e, &data, &mut s)),
+                "DG" => fin(run_text::<DG>(path, e, &data, &mut s)),
                 "DC" => fin(run_text::<DC>(path, e, &data, &mut s)),
                 "DD" => fin(run_text::<DD>(path, e, &data, &mut s)),
                 "DE" => fin(run_text::<DE>(path, e, &data, &mut s)),
@@ -210,6 +226,7 @@ pub fn dispatch(kind: &str, a: &[&str]) -> Option<String> {
             match *st {
                 "DA" => fin(run_bin::<DA>(path, sg, &res, f, &data, &mut s)),
                 "DB" => fin(run_bin::<DB>(path, sg, &res, f, &data, &mut s)),
+                "DG" => fin(run_bin::<DG>(path, sg, &res, f, &data, &mut s)),
                 "DC" => fin(run_bin::<DC>(path, sg, &res, f, &data, &mut s)),
                 "DD" => fin(run_bin::<DD>(path, sg, &res, f, &data, &mut s)),
                 "DE" => fin(run_bin::<DE>(path, sg, &res, f, &data, &mut s)),
